@@ -102,3 +102,37 @@ Example C03_example :
   make_url_key a = make_url_key b /\ make_url_key c = make_url_key d /\ make_url_key d <> make_url_key e /\
   make_url_key f <> make_url_key g /\ make_url_key a = bs "http://a.test/~x?q=%C3%A9".
 Proof. vm_compute. repeat split; try reflexivity; discriminate. Qed.
+
+(* ---------- history level ---------- *)
+From HC.Proofs Require Import ProvProofs.
+
+(* Along every sequential history from an empty store — any requests, any origin script, any timing — a
+   response handed to the caller carries no body, or the body of an origin call (logged somewhere in the
+   history) made for a request with the same URL key as the request it answers.  With C03_key_sound: for an
+   equivalent URI.  (Invariant: every entry sits under a variant key of the URL key of the request whose call
+   produced its body; every index lists variant keys of its own URL key; ProvProofs.v.) *)
+Theorem C03_history_provenance : forall cfg h t0 script k gq o r,
+  let obs := run_history cfg h (init_world t0 script) in
+  nth_error h k = Some gq -> nth_error obs k = Some o -> x_result o = Done (OResp r) ->
+  p_body r = -1 \/
+  exists q' a c rep, In (EvCall (p_body r) q' a c rep) (flat_map (fun o => x_events o ++ x_bg_events o) obs) /\
+                     make_url_key (q_url q') = make_url_key (q_url (snd gq)).
+Proof.
+  intros cfg h t0 script k gq o r obs Hk Ho Hr.
+  pose proof (history_safe (flat_map (fun o => x_events o ++ x_bg_events o) obs) cfg h (init_world t0 script)
+                (InvS_empty _) (incl_refl _) k gq o r Hk Ho Hr) as [Hb|(q' & (a & c & rep & Hin) & Hu)].
+  - left. exact Hb.
+  - right. exists q', a, c, rep. auto.
+Qed.
+Print Assumptions C03_history_provenance.
+
+Corollary C03_history_equivalent_uri : forall cfg h t0 script k gq o r,
+  let obs := run_history cfg h (init_world t0 script) in
+  nth_error h k = Some gq -> nth_error obs k = Some o -> x_result o = Done (OResp r) -> p_body r <> -1 ->
+  exists q' a c rep, In (EvCall (p_body r) q' a c rep) (flat_map (fun o => x_events o ++ x_bg_events o) obs) /\
+    (url_wf (q_url q') = true -> url_wf (q_url (snd gq)) = true -> uri_equiv (q_url q') (q_url (snd gq)) = true).
+Proof.
+  intros cfg h t0 script k gq o r obs Hk Ho Hr Hb.
+  destruct (C03_history_provenance cfg h t0 script k gq o r Hk Ho Hr) as [E|(q' & a & c & rep & Hin & Hu)]; [contradiction|].
+  exists q', a, c, rep. split; [exact Hin|]. intros W1 W2. apply key_sound_equiv; assumption.
+Qed.
